@@ -139,6 +139,27 @@ def run(case):
             os.remove(fn)
             if fmt == "xdmf" and os.path.exists(fn.replace(".xdmf", ".h5")):
                 os.remove(fn.replace(".xdmf", ".h5"))
+        # the pyvista route (as_unstructured_grid / MeshContainer.from_unstructured_grid): VTK cell type of the standard cell
+        # types (independent table of VTK ids), and the same points, cells and cell type after the way back
+        VTK_ID = {"line": 3, "triangle": 5, "quad": 9, "tetra": 10, "hexahedron": 12, "triangle6": 22, "quad8": 23, "tetra10": 24, "hexahedron20": 25, "quad9": 28, "hexahedron27": 29}
+        if mesh.cell_type in VTK_ID:
+            try:
+                grid = mesh.as_unstructured_grid()
+                c.trans += 1
+                ids = np.unique(np.asarray(grid.celltypes))
+                if ids.tolist() != [VTK_ID[mesh.cell_type]]:
+                    c.bad("pyvista/celltype", "VTK cell type of the unstructured grid", ids.tolist(), [VTK_ID[mesh.cell_type]])
+                back = fem.MeshContainer.from_unstructured_grid(grid, dim=mesh.dim)
+                c.trans += 1
+                c.states += 1
+                if len(back.meshes) != 1 or back.meshes[0].cell_type != mesh.cell_type:
+                    c.bad("pyvista/roundtrip/cell_type", "cell type after as_unstructured_grid -> from_unstructured_grid", [m_.cell_type for m_ in back.meshes], [mesh.cell_type])
+                else:
+                    c.same("pyvista/roundtrip/cells", "cells after the pyvista round trip", back.meshes[0].cells, mesh.cells)
+                    c.same("pyvista/roundtrip/points", "points after the pyvista round trip", back.meshes[0].points[:, : mesh.dim], mesh.points)
+                    c.nontrivial.append("pyvista/roundtrip")
+            except Exception as ex:  # noqa
+                c.bad("pyvista/exception", "the pyvista route raised for a standard cell type", repr(ex)[:160], "a grid and the mesh back")
         return c.result(dict(case=case["key"], points=int(mesh.npoints), cells=int(mesh.ncells), formats=fmts))
     if kind == "container":
         a = zoo.make("quad", "distorted", seed)
